@@ -34,7 +34,7 @@ func c11Symbols() (syms []string) {
 		"||пример.рф^", "||nul\x00.test^", "example.org##.specific", "@@||example.org^$document",
 		// "##" in places where it is not a cosmetic marker, unsupported and invalid cosmetic forms
 		"127.0.0.1 tracker.test #ads##old", "||example.net/page#top##section", "0.0.0.0 hosts3.test  ## note", "example.org#?#.ext", "#@#.nodomain",
-		"example.org,~sub.example.org##.neg", "\texample.com##.tab-indented", "||example.org^$important ",
+		"example.org,~sub.example.org##.neg", "\texample.com##.tab-indented", "||example.org^$important ", "\ufeff||bom.test^", "\ufeff! comment after a byte-order mark",
 	}
 	for _, n := range c11LongLens {
 		syms = append(syms, c11LongRule(n), c11LongComment(n))
